@@ -8,7 +8,7 @@ using namespace model;
 
 void run_c05(sim::RunCtx& ctx) {
     gen::g_row_cap = 0;
-    gen::FlatOpts fo;
+    gen::FlatOpts fo; fo.allow_repeated = true; fo.allow_unsigned = true;
     gen::WritePlan p = gen::gen_write_plan(fo);
     if (p.codec == 5 && sim::avoid_known("codec_lz4_legacy_tag")) p.codec = 7;
     common::apply_benign_knobs();
